@@ -14,6 +14,7 @@ import PMC.Generated.Grammar
 import PMC.Model.Classes
 import PMC.Model.Fair
 import PMC.Model.LTLAtoms
+import PMC.Model.BDDApi
 import PMC.Generated.ClassTable
 open PMC
 
@@ -311,6 +312,246 @@ def decOrder (g : LTL.RFm) (s : String) : Option (List LTL.RFm) :=
 def encBAtoms (A : List (LTL.BAtom Nat)) : String :=
   ";".intercalate (A.map (fun a => s!"{a.1}:" ++ ",".intercalate (a.2.map encRFm)))
 
+/-! ### the rest of the OBDD API (PMC/Model/BDDApi.lean)
+
+  names are encoded as everywhere (`encName`); a string answer (`str`) is its code points joined by `.` (`-` when empty)
+
+  `ORDERING|<names>|<op>;<op>;…`   `ListOrdering([names])`, then the operations on it
+        answer: `ERR RuntimeError` (a repeated variable), or `OK ; <answer> ; …` with
+        `contains x` -> true/false        `cmp x y` -> `OK <int>` / `ERR KeyError`      `inorder x y` -> `OK true|false` / `ERR KeyError`
+        `list` -> the names of `get_list()`      `str` -> `__str__`      `eq <names>` -> `==` with `ListOrdering([names])`
+        `eqother` -> `==` with three things that are not a ListOrdering (an object, None, the list itself)
+  `RESPECT|<names>|<named tree>`   `node.respect_ordering(ListOrdering([names]))`; named tree: `0` | `1` | `( name lo hi )`
+        answer `OK true|false` / `ERR RuntimeError|KeyError`
+  `OBDDAPI|<stmt>;<stmt>;…|<exp0>|<exp1>|…`   a session over a pool of values; `<expK>` are expression S-expressions
+        (as in `BDD|…`, variables as positions in the ordering the expression is parsed under, `-` when missing)
+     value tokens: `i<int>` int, `bT`/`bF` bool, `f<int>` the float <int>.0, `h<int>` the float <int>.5, `s<name>` str,
+        `N` None, `l<name>,<name>,…` a list of str (`l` = []), `U` a tuple of length ≠ 1, `X` some other object,
+        `$k` the k-th pool value
+     statements (each pushes its result — or the failure — on the pool unless said otherwise):
+        `node a1 … an`  BDDNode(a1, …, an)        `term a`  BDDTerminalNode(a)       `nonterm s<var> lo hi`  BDDNonTerminalNode(…)
+        `mkord a`  Ordering(a)  (a ListOrdering for a list, None otherwise)
+        `obdd <bfunct> <ordering> <0|1>`  OBDD(bfunct, ordering, check_ordering); bfunct: a value token, `e<K>` (the str
+             whose expression is <expK>), or `L<K>:<name>,<name>,…` (the str `lambda names: <expK>`); ordering: a value token
+        `restrict $i var value`   `nrestrict $i var value` (BDDNode.restrict)   `and|or|xor $i a`   `inv $i`
+        not pushed:  `eq|ne|req $i a` -> true/false   `vars $i` -> names (sorted)   `str $i` -> code points
+        `fresh` (not pushed, answers ok): from here on no terminal node exists yet (a fresh interpreter); the kind of
+             value (float or not) each terminal is first requested with is remembered, see `TermVals`
+     answers: `node <tree>`, `obdd <N | l<names>> : <tree>`, `ordering l<names>`, `None`, `ERR <exception>`,
+        `unmodelled` (a non-str variable), `bad-ref` / `bad-op` (malformed statement)
+  `STORE|<op>;<op>;…`   the unique table; refs are `T0`, `T1`, `#<id>`
+        `mk <var:nat> <lo> <hi>` -> the ref returned      `gc <id> <id> …` (the ids that stay) -> ok
+        `desc <ref>` / `anc <ref>` / `nodes` -> the set of refs (terminals first, then ids ascending) -/
+
+open PMC.BDD in
+partial def parseNTree : List String → Option (NBDD × List String)
+  | "0" :: r => some (.leaf false, r)
+  | "1" :: r => some (.leaf true, r)
+  | "(" :: n :: r =>
+    match parseNTree r with
+    | some (lo, r1) => match parseNTree r1 with
+      | some (hi, ")" :: r2) => some (.node (decName n) lo hi, r2)
+      | _ => none
+    | none => none
+  | _ => none
+
+open PMC.BDD in
+def encNTree : NBDD → String
+  | .leaf b => if b then "1" else "0"
+  | .node v lo hi => s!"( {encName v} {encNTree lo} {encNTree hi} )"
+
+def encText (s : String) : String :=
+  if s.isEmpty then "-" else ".".intercalate (s.toList.map (fun c => toString c.toNat))
+
+def decNames (s : String) : List String := (words s).map decName
+
+def decNameList (s : String) : List String := ((s.splitOn ",").filter (· ≠ "")).map decName
+
+def encNameList (l : List String) : String := "l" ++ ",".intercalate (l.map encName)
+
+def encErr (e : Err) : String := "ERR " ++ e.name
+
+def sortStr (l : List String) : List String := (l.toArray.qsort (· < ·)).toList
+def dedupStr : List String → List String
+  | a :: b :: r => if a = b then dedupStr (b :: r) else a :: dedupStr (b :: r)
+  | l => l
+
+open PMC.BDD in
+def orderingOps (names : List String) (ops : List String) : String :=
+  match Ordering.make names with
+  | .error e => encErr e
+  | .ok O =>
+    let one (op : String) : String :=
+      match words op with
+      | ["contains", x] => toString (Ordering.contains O (decName x))
+      | ["cmp", x, y] => encExcept (fun (d : Int) => toString d) (Ordering.cmp O (decName x) (decName y))
+      | ["inorder", x, y] => encExcept (fun (b : Bool) => toString b) (Ordering.inOrder O (decName x) (decName y))
+      | ["list"] => " ".intercalate ((Ordering.getList O).map encName)
+      | ["str"] => encText (Ordering.str O)
+      | "eq" :: ns =>
+        (match Ordering.make (ns.map decName) with
+         | .ok O2 => toString (Ordering.eqv O O2)
+         | .error e => encErr e)
+      | ["eqother"] => toString (Ordering.eqPy O .other) ++ " " ++ toString (Ordering.eqPy O .none) ++ " " ++
+          toString (Ordering.eqPy O (.strList O))
+      | _ => "bad-op"
+    " ; ".intercalate ("OK" :: ops.map one)
+
+open PMC.BDD in
+def decVal (pool : Array (Option PyVal)) (t : String) : Option PyVal :=
+  if t == "N" then some .none
+  else if t == "X" then some .other
+  else if t == "U" then some .tuple
+  else if t == "bT" then some (.bool true)
+  else if t == "bF" then some (.bool false)
+  else if t.startsWith "$" then ((t.drop 1).toString.toNat?).bind (fun i => pool.getD i none)
+  else if t.startsWith "i" then ((t.drop 1).toString.toInt?).map PyVal.int
+  else if t.startsWith "f" then ((t.drop 1).toString.toInt?).map (fun n => PyVal.float n false)
+  else if t.startsWith "h" then ((t.drop 1).toString.toInt?).map (fun n => PyVal.float n true)
+  else if t.startsWith "s" then some (.str (decName (t.drop 1).toString))
+  else if t.startsWith "l" then some (.strList (decNameList (t.drop 1).toString))
+  else none
+
+open PMC.BDD in
+def encVal : PyVal → String
+  | .node t => "node " ++ encNTree t
+  | .obdd o => "obdd " ++ (match o.ordering with | some O => encNameList O | none => "N") ++ " : " ++ encNTree o.root
+  | .ordering O => "ordering " ++ encNameList O
+  | .none => "None"
+  | _ => "value"
+
+open PMC.BDD in
+def ordArgOf : PyVal → OrdArg
+  | .none => .none
+  | .strList l => .list l
+  | .ordering O => .ordering O
+  | .tuple => .tuple
+  | _ => .other
+
+open PMC.BDD in
+def apiSession (stmts : List String) (exps : Array String) : List String :=
+  let getExp (k : String) : Option BExp :=
+    (k.toNat?.bind (fun k => exps[k]?)).bind (fun e => match parseBExp (words e) with | some (e, []) => some e | _ => none)
+  let decBf (pool : Array (Option PyVal)) (t : String) : Option Bfunct :=
+    if t.startsWith "e" then (getExp (t.drop 1).toString).map Bfunct.expr
+    else if t.startsWith "L" then
+      match (t.drop 1).toString.splitOn ":" with
+      | [k, args] => (getExp k).map (Bfunct.lam (decNameList args))
+      | _ => none
+    else (decVal pool t).map Bfunct.val
+  let (_, _, outs) := stmts.foldl (fun (st : Array (Option PyVal) × TermVals × List String) stmt =>
+    let (pool, tv, outs) := st
+    -- any operation other than an explicit terminal request creates the missing terminals with int / bool values
+    let tv' := (tv.create false false).create true false
+    let pushV (r : Except Err PyVal) := match r with
+      | .ok v => (pool.push (some v), tv', encVal v :: outs)
+      | .error e => (pool.push none, tv', encErr e :: outs)
+    let pushT (a : PyVal) (r : Except Err PyVal) := match r, a.asBit with
+      | .ok v, some b => (pool.push (some v), tv.create b a.isFloat, encVal v :: outs)
+      | .ok v, none => (pool.push (some v), tv, encVal v :: outs)
+      | .error e, _ => (pool.push none, tv, encErr e :: outs)
+    let bad (o : String) := (pool.push none, tv, o :: outs)
+    let say (o : String) := (pool, tv, o :: outs)
+    let obddAt (t : String) : Option OBDDv := match decVal pool t with | some (.obdd o) => some o | _ => none
+    match words stmt with
+    | ["fresh"] => (pool, TermVals.fresh, "ok" :: outs)
+    | ["node", a] =>
+      (match decVal pool a with
+       | some v => pushT v ((terminal v).map PyVal.node)
+       | none => bad "bad-ref")
+    | "node" :: args =>
+      (match args.mapM (decVal pool) with
+       | some vs => (match BDDNode.new vs with
+          | some r => pushV (r.map PyVal.node)
+          | none => bad "unmodelled")
+       | none => bad "bad-ref")
+    | ["term", a] =>
+      (match decVal pool a with
+       | some v => pushT v ((terminal v).map PyVal.node)
+       | none => bad "bad-ref")
+    | ["nonterm", x, lo, hi] =>
+      (match decVal pool x, decVal pool lo, decVal pool hi with
+       | some (.str x), some lo, some hi => pushV ((nonTerminal x lo hi).map PyVal.node)
+       | some _, some _, some _ => bad "unmodelled"
+       | _, _, _ => bad "bad-ref")
+    | ["mkord", a] =>
+      (match decVal pool a with
+       | some (.strList l) => pushV ((Ordering.make l).map PyVal.ordering)
+       | some .tuple => pushV (.error .typeError)
+       | some _ => pushV (.ok .none)
+       | none => bad "bad-ref")
+    | ["obdd", bf, o, chk] =>
+      (match decBf pool bf, decVal pool o with
+       | some bf, some o => pushV ((OBDDv.init bf (ordArgOf o) (chk == "1")).map PyVal.obdd)
+       | _, _ => bad "bad-ref")
+    | ["restrict", i, x, v] =>
+      (match obddAt i, decVal pool x, decVal pool v with
+       | some o, some x, some v => pushV ((o.restrict x v).map PyVal.obdd)
+       | _, _, _ => bad "bad-ref")
+    | ["nrestrict", i, x, v] =>
+      (match decVal pool i, decVal pool x, decVal pool v with
+       | some (.node t), some x, some v => pushV ((nodeRestrict t x v).map PyVal.node)
+       | _, _, _ => bad "bad-ref")
+    | ["inv", i] =>
+      (match obddAt i with
+       | some o => pushV (o.invert.map PyVal.obdd)
+       | none => bad "bad-ref")
+    | [op, i, a] =>
+      (match obddAt i, decVal pool a with
+       | some o, some a =>
+         if op == "eq" || op == "req" then say (encExcept (fun (b : Bool) => toString b) (o.eq a))
+         else if op == "ne" then say (encExcept (fun (b : Bool) => toString (!b)) (o.eq a))
+         else if op == "and" then pushV ((OBDDv.apply (· && ·) (fun _ _ => false) o a).map PyVal.obdd)
+         else if op == "or" then pushV ((OBDDv.apply (· || ·) (fun _ _ => false) o a).map PyVal.obdd)
+         else if op == "xor" then pushV ((OBDDv.apply (fun x y => x != y) tv'.xorBad o a).map PyVal.obdd)
+         else say "bad-op"
+       | _, _ => if op == "eq" || op == "req" || op == "ne" then say "bad-ref" else bad "bad-ref")
+    | ["vars", i] =>
+      (match decVal pool i with
+       | some (.obdd o) => say (" ".intercalate ((dedupStr (sortStr o.variables)).map encName))
+       | some (.node t) => say (" ".intercalate ((dedupStr (sortStr t.vars)).map encName))
+       | _ => say "bad-ref")
+    | ["str", i] =>
+      (match decVal pool i with
+       | some (.obdd o) => say (encText o.toStr)
+       | some (.node t) => say (encText t.printStr)
+       | some (.ordering O) => say (encText (Ordering.str O))
+       | _ => say "bad-ref")
+    | _ => say "bad-op") (#[], TermVals.clean, [])
+  outs.reverse
+
+open PMC.BDD in
+def decRef (t : String) : Option Ref :=
+  if t == "T0" then some (.term false) else if t == "T1" then some (.term true)
+  else if t.startsWith "#" then ((t.drop 1).toString.toNat?).map Ref.id else none
+
+open PMC.BDD in
+def encRef : Ref → String
+  | .term b => if b then "T1" else "T0"
+  | .id n => s!"#{n}"
+
+open PMC.BDD in
+def encRefSet (l : List Ref) : String :=
+  let ts := (if l.contains (.term false) then ["T0"] else []) ++ (if l.contains (.term true) then ["T1"] else [])
+  let ids := dedupSorted (sortNat (l.filterMap (fun r => match r with | .id n => some n | _ => none)))
+  " ".intercalate (ts ++ ids.map (fun n => s!"#{n}"))
+
+open PMC.BDD in
+def storeSession (ops : List String) : List String :=
+  let (_, outs) := ops.foldl (fun (st : Store × List String) op =>
+    let (s, outs) := st
+    match words op with
+    | ["mk", v, lo, hi] =>
+      (match v.toNat?, decRef lo, decRef hi with
+       | some v, some lo, some hi => let m := mkNode s v lo hi; (m.2, encRef m.1 :: outs)
+       | _, _, _ => (s, "bad-op" :: outs))
+    | "gc" :: keep => let k := keep.filterMap (·.toNat?); (gc s (fun n => k.contains n), "ok" :: outs)
+    | ["desc", r] => (match decRef r with | some r => (s, encRefSet (descendants s r) :: outs) | none => (s, "bad-op" :: outs))
+    | ["anc", r] => (match decRef r with | some r => (s, encRefSet (ancestors s r) :: outs) | none => (s, "bad-op" :: outs))
+    | ["nodes"] => (s, encRefSet (nodes s) :: outs)
+    | _ => (s, "bad-op" :: outs)) ((⟨[], 0⟩ : Store), [])
+  outs.reverse
+
 /-! ### dispatch -/
 
 def step (line : String) : String :=
@@ -439,6 +680,16 @@ def step (line : String) : String :=
       (match decFm f with
        | some f => encExcept encSet (LTL.modelcheckBuilt LTL.defaultOrder (decKripke g l) f)
        | none => "bad-formula")
+  | ["ORDERING", names, ops] =>
+      orderingOps (decNames names) (((ops.splitOn ";").map (·.trimAscii.toString)).filter (· ≠ ""))
+  | ["RESPECT", names, tree] =>
+      (match parseNTree (words tree) with
+       | some (t, []) => encExcept (fun (b : Bool) => toString b) (PMC.BDD.NBDD.respectOrdering (decNames names) t)
+       | _ => "bad-op")
+  | "OBDDAPI" :: stmts :: exps =>
+      " ; ".intercalate (apiSession (((stmts.splitOn ";").map (·.trimAscii.toString)).filter (· ≠ "")) exps.toArray)
+  | ["STORE", ops] =>
+      " ; ".intercalate (storeSession (((ops.splitOn ";").map (·.trimAscii.toString)).filter (· ≠ "")))
   | ["BDD", names, ops] =>
       " ; ".intercalate (bddHistory (words names).toArray ((ops.splitOn ";").map (·.trimAscii.toString)))
   | _ => "bad-op"
